@@ -461,7 +461,9 @@ def c01(sc, tier, seed):
     pong = {'t': 'simple', 'v': 'PONG'}
     for depth in range(1, 17):
         chosen.append({'cmds': [ping] * depth, 'chunks': [14 * depth], 'replies': [pong] * depth, 'delay_us': 0})
-    for size in (9000, 70000):
+    # (8163 / 16354: the whole SET command is exactly 8192 / 16384 bytes - one or two full read buffers and nothing
+    #  after it; 8162 / 8164: one byte less / more)
+    for size in (8162, 8163, 8164, 16354, 9000, 70000):
         big = [[[83, 1], [69, 1], [84, 1]], [[98, 1]], [[120, size - 3], [13, 1], [10, 1], [0, 1]]]      # SET b x...x\r\n\0
         getb = [[[71, 1], [69, 1], [84, 1]], [[98, 1]]]
         val = [120] * (size - 3) + [13, 10, 0]
